@@ -388,6 +388,7 @@ func (c *Channel) NewStream(ctx context.Context, desc *grpc.StreamDesc, method s
 	}()
 	cs := &inProcessClientStream{
 		ctx:            ctx,
+		cancel:         cancel,
 		cloner:         cloner,
 		svrCtx:         svrDoneCtx,
 		requests:       requests,
@@ -603,6 +604,7 @@ func (s *inProcessServerStream) RecvMsg(m interface{}) error {
 // (which runs in a separate goroutine).
 type inProcessClientStream struct {
 	ctx            context.Context
+	cancel         context.CancelFunc
 	cloner         Cloner
 	svrCtx         context.Context
 	copts          *internal.CallOptions
@@ -754,6 +756,9 @@ func (s *inProcessClientStream) ensureNoMoreLocked(m interface{}) error {
 	if err == nil {
 		s.last = &frame{err: status.Error(codes.Internal, "method should return 1 response message but server sent >1")}
 		s.state = streamStateClosed
+		// we won't be reading any more responses, so we must cancel the
+		// context so that the handler doesn't hang trying to send them
+		s.cancel()
 		return s.last.err
 	}
 	if err != io.EOF {
